@@ -1,10 +1,45 @@
-(* Extract.v — extraction of the executable model to OCaml.  Only
-   ExtrOcamlBasic is used: Z, N, positive stay the extracted inductive types. *)
-From Coq Require Import Extraction ExtrOcamlBasic ZArith.
-From Sbepp Require Import CInt Bitset.
+(* Extract.v -- GENERATED from extract.d/*.txt by harness/common.py; do not edit.
+   Only ExtrOcamlBasic is used: Z, N, positive, nat stay the extracted inductive types. *)
+From Coq Require Import Extraction ExtrOcamlBasic.
+From Coq Require Import ZArith.
+From Sbepp Require Import CInt.
+From Sbepp Require Import Bitset.
 Extraction Language OCaml.
 Extraction "model.ml"
-  Z.add Z.mul Z.sub Z.div_eucl Z.compare Z.of_nat Z.to_nat Z.opp Z.eqb Z.ltb Z.leb
-  CInt.wrap CInt.in_range CInt.cadd CInt.cmul CInt.csub CInt.cshl
-  Bitset.get_bit Bitset.set_bit Bitset.Legacy.get_bit Bitset.Legacy.set_bit
-  Bitset.spec_get Bitset.spec_set Bitset.visit_set.
+  Z.add
+  Z.mul
+  Z.sub
+  Z.div_eucl
+  Z.compare
+  Z.of_nat
+  Z.to_nat
+  Z.opp
+  Z.eqb
+  Z.ltb
+  Z.leb
+  Z.of_N
+  Z.to_N
+  N.add
+  N.mul
+  N.sub
+  N.div_eucl
+  N.compare
+  N.of_nat
+  N.to_nat
+  N.eqb
+  N.ltb
+  N.leb
+  CInt.wrap
+  CInt.in_range
+  CInt.cadd
+  CInt.cmul
+  CInt.csub
+  CInt.cshl
+  CInt.ccast
+  Bitset.get_bit
+  Bitset.set_bit
+  Bitset.Legacy.get_bit
+  Bitset.Legacy.set_bit
+  Bitset.spec_get
+  Bitset.spec_set
+  Bitset.visit_set.
